@@ -20,6 +20,12 @@ CHECKS = {
          "ranges and round trip for every point incl. zero patterns (dimension 2-3, 4 thorough)", "4 C16"),
  "C20": ("real irr2flux / flux2irr with the real pint registry on symbolic magnitudes: equals I*lambda/(h c N_A) with the exact SI constants to rel 1e-12, exact inverse, linear, "
          "axis= variant == broadcast form, same numbers for plain arrays and quantities in several units, requested prefix/unit returned", "4 C20"),
+ "C03": ("real in_hull_from_A / estimator.in_hull on fully symbolic systems with a two-sided Delaunay contract stub: reported-in => reproducible in bounds (witness = convex weights "
+         "of the box corners) and capture of in-bound intensities => reported-in (multilinear corner weights), i.e. corner enumeration, K/baseline applied once, offset subtraction on "
+         "both sides, relative=False; NNLS fallback (fewer sources than receptors) through the cvxpy shim", "4 C03"),
+ "C06": ("real _range_of_solutions / range_of_solutions / _spaced_solutions with a CONCRETE catalogue of capture matrices and symbolic target, bounds and baseline: every path of the "
+         "candidate enumeration explored; z3 decides soundness for every reproducing intensity vector, attainment of each end (quantified linear arithmetic), spaced solutions in "
+         "bounds and reproducing, out-of-gamut behaviour; perturbed-comparison layer for rounding sensitivity (known finding F10)", "4 C06"),
  "C05": ("exhaustive grid of (n_samples, batch_size) incl. non-dividing, larger-than-n and 'full' for the gaussian, poisson and excitation models: the real batching code "
          "(padding, block-diagonal stacking, scatter) runs on symbolic contents through the cvxpy shim; z3 decides per row: no exception, the result row is its own block of the "
          "stacked solution, it is optimal for its own target/weights alone (separability instance of the stacked contract), and the stacked problem is feasible whenever each row's is", "4 C05"),
